@@ -579,3 +579,36 @@ func (m *Machine) spawnDetached(fn Value) {
 	m.spawn(&frame{m: m, g: m.curG}, token.NoPos, fn, nil)
 	m.opts.Preempt = save
 }
+
+// settle runs the other goroutines until each of them is finished or blocked.
+func (m *Machine) settle(fr *frame) {
+	self := m.curG
+	for i := 0; i < m.opts.MaxSwitches; i++ {
+		var other *Goroutine
+		for _, g := range m.gs {
+			if g != self && !g.done && (g.pred == nil || g.pred()) {
+				other = g
+				break
+			}
+		}
+		if other == nil {
+			return
+		}
+		// park self as runnable-later and hand over
+		self.pred = func() bool { return true }
+		self.what = "settle"
+		m.switches++
+		m.curG = other
+		other.pred = nil
+		other.wake <- struct{}{}
+		<-self.wake
+		if m.aborting {
+			if self.id == 0 && m.pendingEnd != nil {
+				pe := *m.pendingEnd
+				panic(pe)
+			}
+			panic(pathEnd{kind: "abort"})
+		}
+		self.pred = nil
+	}
+}
